@@ -11,6 +11,48 @@ if TYPE_CHECKING:
     from aquacrop.entities.crop import Crop
     from numpy import ndarray
 
+def _depth_with_restrictive_layers(Zr, Crop_Zmin, prof, Soil_nLayer):
+    """
+    Potential rooting depth corrected for the penetrability of the soil
+    layers the roots have to cross to reach it
+    """
+    layeri = 1
+    l_idx = np.argwhere(prof.Layer == layeri).flatten()
+    Zsoil = prof.dz[l_idx].sum()
+    while (round(Zsoil, 2) <= Crop_Zmin) and (layeri < Soil_nLayer):
+        layeri = layeri + 1
+        l_idx = np.argwhere(prof.Layer == layeri).flatten()
+        Zsoil = Zsoil + prof.dz[l_idx].sum()
+
+    soil_layer_dz = prof.dz[l_idx].sum()
+    layer_comp = l_idx[0]
+    # soil_layer = prof.Layer[layeri]
+    ZrAdj = Crop_Zmin
+    ZrRemain = Zr - Crop_Zmin
+    deltaZ = Zsoil - Crop_Zmin
+    EndProf = False
+    while EndProf == False:
+        ZrTest = ZrAdj + (ZrRemain * (prof.Penetrability[layer_comp] / 100))
+        if (
+            (layeri == Soil_nLayer)
+            or (prof.Penetrability[layer_comp] == 0)
+            or (ZrTest <= Zsoil)
+        ):
+            ZrOUT = ZrTest
+            EndProf = True
+        else:
+            ZrAdj = Zsoil
+            ZrRemain = ZrRemain - (deltaZ / (prof.Penetrability[layer_comp] / 100))
+            layeri = layeri + 1
+            l_idx = np.argwhere(prof.Layer == layeri).flatten()
+            layer_comp = l_idx[0]
+            soil_layer_dz = prof.dz[l_idx].sum()
+            Zsoil = Zsoil + soil_layer_dz
+            deltaZ = soil_layer_dz
+
+    return ZrOUT
+
+
 def root_development(
     Crop: "Crop",
     prof: "SoilProfile",
@@ -140,43 +182,12 @@ def root_development(
         dZr = Zr - ZrOld
 
         # Adjust expansion rate for presence of restrictive soil horizons
+        # (both potential depths are corrected, so that their difference is
+        # today's expansion)
         if Zr > Crop.Zmin:
-            layeri = 1
-            l_idx = np.argwhere(prof.Layer == layeri).flatten()
-            Zsoil = prof.dz[l_idx].sum()
-            while (round(Zsoil, 2) <= Crop.Zmin) and (layeri < Soil_nLayer):
-                layeri = layeri + 1
-                l_idx = np.argwhere(prof.Layer == layeri).flatten()
-                Zsoil = Zsoil + prof.dz[l_idx].sum()
-
-            soil_layer_dz = prof.dz[l_idx].sum()
-            layer_comp = l_idx[0]
-            # soil_layer = prof.Layer[layeri]
-            ZrAdj = Crop.Zmin
-            ZrRemain = Zr - Crop.Zmin
-            deltaZ = Zsoil - Crop.Zmin
-            EndProf = False
-            while EndProf == False:
-                ZrTest = ZrAdj + (ZrRemain * (prof.Penetrability[layer_comp] / 100))
-                if (
-                    (layeri == Soil_nLayer)
-                    or (prof.Penetrability[layer_comp] == 0)
-                    or (ZrTest <= Zsoil)
-                ):
-                    ZrOUT = ZrTest
-                    EndProf = True
-                else:
-                    ZrAdj = Zsoil
-                    ZrRemain = ZrRemain - (deltaZ / (prof.Penetrability[layer_comp] / 100))
-                    layeri = layeri + 1
-                    l_idx = np.argwhere(prof.Layer == layeri).flatten()
-                    layer_comp = l_idx[0]
-                    soil_layer_dz = prof.dz[l_idx].sum()
-                    Zsoil = Zsoil + soil_layer_dz
-                    deltaZ = soil_layer_dz
-
-            # Correct Zr and dZr for effects of restrictive horizons
-            Zr = ZrOUT
+            Zr = _depth_with_restrictive_layers(Zr, Crop.Zmin, prof, Soil_nLayer)
+            if ZrOld > Crop.Zmin:
+                ZrOld = _depth_with_restrictive_layers(ZrOld, Crop.Zmin, prof, Soil_nLayer)
             dZr = Zr - ZrOld
 
         # Adjust rate of expansion for any stomatal water stress
